@@ -12,7 +12,7 @@ package documentstore
 
 // UpdateIndex: the index equals the last-writer-wins replay of the listing, batch members included.
 //@ func (*documentIndex).UpdateIndex
-//@   props C07 C01
+//@   props C07 C01 C16
 //@   flag nilcalls
 //@   requires oplog != nil && i.index != nil
 //@   ghost E := valsOf(oplog)
